@@ -148,6 +148,10 @@ def run(rep: Report, prog: Program, tier: str) -> None:
     context_forwarding(rep, "R16.7", prog)
     rep.floor("R16.7", 60)
 
+    from .common import forwarding_slice
+
+    forwarding_slice(rep, "R16.8", prog, ("sleep", "sleep_fn", "before_sleep", "sleeper"), "the sleep handler, before_sleep hook and sleeper the caller passed are the ones consulted: they reach the runner unchanged through every layer, per-call values taking precedence over policy-level ones (= their obligations of C12 R12.3)")
+
 
 def sleep_protocol(rep: Report, r1: str, r2: str, prog: Program) -> None:
     res = run_runners(prog, lambda: SleepClient2(prog))
@@ -356,7 +360,9 @@ def selectors_and_rest(rep: Report, prog: Program) -> None:
 
     eng6 = PathEngine(prog, cfgs(prog))
     base_inline6 = default_inline()
-    eng6.inline = lambda fn: base_inline6(fn) or (fn.module.name == HELPERS and fn.name.startswith("_") and fn.cls is None)
+    from .runner_flow import KNOWN_MODULES as _KM
+
+    eng6.inline = lambda fn: base_inline6(fn) or ((fn.module.name == HELPERS or fn.module.name not in _KM) and fn.name.startswith("_") and fn.cls is None)
     root6 = prog.func(f"{HELPERS}:_async_sleep_action")
     rep.analysed(root6.qual)
     seen6: dict[str, int] = {"sleeper": 0, "before_sleep": 0}
